@@ -11,6 +11,13 @@ for **every** value of the symbol type, and the test precedes any narrowing conv
 * a support that does not fit `Probability` cannot be created at all (`C09_leaky_no_wide_support`,
   D10), so no in-support symbol can alias an out-of-support one after narrowing.
 
+Strength of the statements: `C09_{lazy,eager,leaky}_out_of_support` unfold exactly the first
+test of the respective model function — that *is* the content of the property for these models
+(the range test precedes everything else, so it holds for arbitrary tables / distributions, with
+the result `.ok none`, not merely "no `some`"); the substantive direction, that every in-support
+symbol *is* encodable and that no aliasing support can be constructed, is
+`C09_leaky_in_support` / `C09_leaky_no_wide_support` (and C03 for the categorical models).
+
 (The coders' part of C09 — a failed encode leaves the coder intact — is in `C09_ans`, `C09_range`,
 `C09_chain`.)  Label: **full**.
 -/
